@@ -326,6 +326,9 @@ Fixpoint delete_ctx (fuel : nat) (v : vm) (cid : Z) : vm :=
       end
   end.
 
+Definition ctx_fuel : nat := Z.to_nat 1000.
+Arguments delete_ctx : simpl never.
+
 Definition delete_range (v : vm) (cid : Z) (lo hi : Z) : outcome vm :=
   c <~ get_ctx v cid ;;
   m <~ get_mem v (c_mid c) ;;
@@ -338,7 +341,7 @@ Definition delete_range (v : vm) (cid : Z) (lo hi : Z) : outcome vm :=
                          match assoc_get (c_children c') h with
                          | None => acc
                          | Some child =>
-                             let acc1 := delete_ctx 1000 acc child in
+                             let acc1 := delete_ctx ctx_fuel acc child in
                              match assoc_get (v_ctxs acc1) cid with
                              | Some c'' => set_ctx acc1 cid {| c_ip := c_ip c''; c_mid := c_mid c''; c_parent := c_parent c'';
                                                                c_children := assoc_del (c_children c'') h; c_tmp := c_tmp c'' |}
@@ -448,7 +451,7 @@ Definition report_text (v : vm) (cid ip : Z) (e : err) (vals : list value) : str
                                else "    " +++ itoa i +++ ": " +++ instr_string w +++ nl
                            | None => ""
                            end) idxs) +++
-  dump_ctx_chain 1000 v cid.
+  dump_ctx_chain ctx_fuel v cid.
 
 (* ---- results of Run ---- *)
 Inductive run_result :=
@@ -462,7 +465,7 @@ Inductive run_result :=
 Definition reset_after_error (v : vm) : vm :=
   (* children of main are dropped (not put on the free list); their memories die *)
   let v1 := match assoc_get (v_ctxs v) 0 with
-            | Some c => fold_left (fun acc ch => delete_ctx 1000 acc (snd ch)) (c_children c) v
+            | Some c => fold_left (fun acc ch => delete_ctx ctx_fuel acc (snd ch)) (c_children c) v
             | None => v
             end in
   let v2 := match assoc_get (v_mems v1) 0 with
